@@ -176,6 +176,17 @@ class PythonClassEmitter(PythonEmitter):
             self(line)
 
 
+def _make_python_attribute_name(name):
+    from keyword import iskeyword
+
+    from dagrt.codegen.utils import make_identifier_from_name
+    result = make_identifier_from_name(name)
+    if iskeyword(result):
+        # e.g. a function called "class"
+        result = result + "_"
+    return result
+
+
 class PythonNameManager:
     """Maps names that appear in intermediate code to Python identifiers.
     """
@@ -185,7 +196,9 @@ class PythonNameManager:
         self._global_map = KeyToUniqueNameMap(forced_prefix="self.global_",
                                               start={"<t>": "self.t",
                                                      "<dt>": "self.dt"})
-        self.function_map = KeyToUniqueNameMap(forced_prefix="self._functions.")
+        self.function_map = KeyToUniqueNameMap(
+                forced_prefix="self._functions.",
+                key_translate_func=_make_python_attribute_name)
 
     def name_global(self, name):
         """Return the identifier for a global variable."""
